@@ -61,7 +61,14 @@ func (orderedMap *Map[K, V]) Set(key K, value V) {
 	orderedMap.records[key] = value
 }
 
+// A nil *Map reads as an empty map, like a nil Go map: that is what a map
+// encoded as `null` is decoded to.
 func (orderedMap *Map[K, V]) Get(key K) V {
+	if orderedMap == nil {
+		var zero V
+		return zero
+	}
+
 	return orderedMap.records[key]
 }
 
@@ -70,11 +77,19 @@ func (orderedMap *Map[K, V]) At(index int) V {
 }
 
 func (orderedMap *Map[K, V]) Has(key K) bool {
+	if orderedMap == nil {
+		return false
+	}
+
 	_, exists := orderedMap.records[key]
 	return exists
 }
 
 func (orderedMap *Map[K, V]) Remove(key K) {
+	if orderedMap == nil {
+		return
+	}
+
 	delete(orderedMap.records, key)
 
 	newOrder := make([]K, 0, len(orderedMap.order))
@@ -90,6 +105,10 @@ func (orderedMap *Map[K, V]) Remove(key K) {
 }
 
 func (orderedMap *Map[K, V]) Len() int {
+	if orderedMap == nil {
+		return 0
+	}
+
 	return len(orderedMap.order)
 }
 
@@ -97,6 +116,10 @@ func (orderedMap *Map[K, V]) Len() int {
 // use the map itself: a key removed before it is reached is not produced, and
 // no key is produced twice (the keys are walked on a snapshot of their order).
 func (orderedMap *Map[K, V]) Iterate(callback func(key K, value V)) {
+	if orderedMap == nil {
+		return
+	}
+
 	keys := append([]K(nil), orderedMap.order...)
 
 	for _, key := range keys {
@@ -129,6 +152,10 @@ func (orderedMap *Map[K, V]) Filter(callback func(key K, value V) bool) *Map[K, 
 
 func (orderedMap *Map[K, V]) Values() []V {
 	values := make([]V, 0, orderedMap.Len())
+	if orderedMap == nil {
+		return values
+	}
+
 	for _, key := range orderedMap.order {
 		values = append(values, orderedMap.records[key])
 	}
@@ -139,6 +166,10 @@ func (orderedMap *Map[K, V]) Values() []V {
 // equal values. The way the maps were built does not matter: a map emptied by
 // Remove is equal to a new one.
 func (orderedMap *Map[K, V]) Equal(other *Map[K, V]) bool {
+	if orderedMap == nil || other == nil {
+		return orderedMap.Len() == other.Len()
+	}
+
 	if len(orderedMap.order) != len(other.order) {
 		return false
 	}
@@ -159,6 +190,10 @@ func (orderedMap *Map[K, V]) Equal(other *Map[K, V]) bool {
 // Sort sorts the keys using the provided less function, keeping equal elements
 // in their original order.
 func (orderedMap *Map[K, V]) Sort(lessFunc func(i K, j K) bool) {
+	if orderedMap == nil {
+		return
+	}
+
 	sort.SliceStable(orderedMap.order, func(i, j int) bool {
 		return lessFunc(orderedMap.order[i], orderedMap.order[j])
 	})
